@@ -6,7 +6,7 @@
    arbitrary answer scripts (iterators yielding after None, lying size hints). *)
 From Coq Require Import ZArith List Bool Lia Permutation.
 From MV Require Import Ast Eval Scalar Machine Model Policy.
-From MV.Proofs Require Import Arith Logic Prim View OpsLocal Guards Drops DrainIt Retain CapHistory Core FilterIt Grow Dedup Refine Clone Extend.
+From MV.Proofs Require Import Arith Logic Prim View OpsLocal Guards Drops DrainIt Retain CapHistory Core FilterIt Grow Dedup Refine Clone Extend RetainSpec RetainAbs.
 Import ListNotations.
 Open Scope Z_scope.
 
@@ -159,3 +159,39 @@ Theorem C17_extend_any_iterator :
                          (forall e, e < next_elem s -> ledger s' e = ledger s e)).
 Proof. exact extend_abs. Qed.
 Print Assumptions C17_extend_any_iterator.
+
+(* retain(pred) with ANY predicate script, at list level.  `rspec l sc` = (kept, rejected, did the
+   predicate panic, the elements it never saw): a pure function of the element list and the script.
+   - normal return: the vector is exactly the accepted elements in their original order; every
+     rejected element is destroyed exactly once; nothing else is touched and no element is created;
+   - the predicate panics: the vector holds a permutation of ALL its original elements (nothing
+     dropped, nothing duplicated -- the ledger is untouched);
+   - a destructor panics in the final truncate: same final contents, the rejected are destroyed. *)
+Theorem C17_retain_is_the_scripted_filter :
+  forall cfg, cfg_ok cfg -> needs_drop cfg = true -> forall s v l sc,
+  vabs cfg s v l ->
+  let '(k, j, p, u) := rspec l sc in
+  post (retain cfg v sc s)
+    (fun _ s' => p = false /\ vabs cfg s' v k /\ (forall e, In e j -> ledger s' e = Dropped) /\
+                 (forall e, ~ In e j -> ledger s' e = ledger s e) /\ next_elem s' = next_elem s)
+    (fun s' => (p = true /\ exists l', Permutation l' l /\ vabs cfg s' v l' /\ ledger s' = ledger s) \/
+               (p = false /\ vabs cfg s' v k /\ (forall e, In e j -> ledger s' e = Dropped) /\
+                (forall e, ~ In e j -> ledger s' e = ledger s e))).
+Proof. exact retain_abs. Qed.
+
+(* what rspec computes: kept ++ rejected ++ unseen is a permutation of the input, and without a
+   predicate panic nothing is left unseen *)
+Theorem C17_retain_partition :
+  forall rest sc, let '(k, j, p, u) := rspec rest sc in Permutation (k ++ j ++ u) rest /\ (p = false -> u = []).
+Proof. exact rspec_perm. Qed.
+Print Assumptions C17_retain_is_the_scripted_filter.
+Print Assumptions C17_retain_partition.
+
+(* ... and with a predicate that never panics (any boolean answers bs, one per element) rspec is
+   List.filter: kept = the elements answered true, rejected = those answered false, in order *)
+Theorem C17_retain_without_panics_is_filter :
+  forall l bs, List.length bs = List.length l ->
+  rspec l (map ans_of bs) =
+    (map fst (filter snd (combine l bs)), map fst (filter (fun x => negb (snd x)) (combine l bs)), false, []).
+Proof. exact rspec_filter. Qed.
+Print Assumptions C17_retain_without_panics_is_filter.
